@@ -14,7 +14,6 @@ impl SimdUnaryOp<f32> for Tanh {
     fn eval<I: Isa>(&self, isa: I, x: I::F32) -> I::F32 {
         let ops = isa.f32();
 
-        let x_negative = ops.le(x, ops.zero());
         let abs_x = ops.abs(x);
 
         // Cutoff beyond which `f32::tanh(x)` saturates at +/- 1.0.
@@ -60,8 +59,10 @@ impl SimdUnaryOp<f32> for Tanh {
         let y = ops.select(y_small, y, x_small);
         let y = ops.select(abs_x, y, x_tiny);
 
-        // Flip sign if input was negative.
-        ops.select(ops.neg(y), y, x_negative)
+        // `y` was computed from `|x|`. Copy the sign of the input, so that
+        // `tanh(+0.0) = +0.0` and `tanh(-0.0) = -0.0`.
+        let sign = ops.and(x, ops.splat(-0.0));
+        ops.xor(y, sign)
     }
 }
 
